@@ -1,1 +1,1151 @@
-fn main() {}
+//! C02 — Concurrent clients on one node see a linearizable per-key history.
+//!
+//! Checks (DESIGN.md §3 C02, appendix B):
+//!   checker_hand   hand-written linearizable / non-linearizable histories (the checker itself);
+//!                  also the replay target for histories recorded by the stress tier
+//!   checker_seq    generated sequential histories with widened intervals must be accepted; the
+//!                  same history with one read of a never-written value must be rejected
+//!   sched          2–5 client programs (5–25 ops) over 1–3 shared keys on one
+//!                  `ShardedActorState<VerifTime>` (1, 2, 4, 16 shards; generated response-pool
+//!                  size), every client a task on a current-thread runtime with generated
+//!                  `yield_now` counts before each step, so the interleaving of clients and shard
+//!                  actors is a deterministic function of the case. History of
+//!                  (client, op, reply, inv, res) from one logical clock; per key a Wing–Gong/Lowe
+//!                  search against a sequential string-register model. Violation = no linearization.
+//!   conn_clients   the same programs through concurrent connection handlers (hook) sharing one
+//!                  ShardedActorState; each client talks over an in-memory duplex stream
+//!   stress         (thorough) 8–16 clients on a multi-thread runtime; the replay artefact is the
+//!                  recorded history (check `checker_hand`)
+
+mod lin;
+
+use bytes::Bytes;
+use lin::{check_key, show_history, spec, Entry, MOp, St, Verdict};
+use proptest::prelude::*;
+use redis_sim::production::{
+    verif_hooks, ConnectionConfig, PerformanceConfig, ResponsePoolConfig, ShardConfig, ShardedActorState,
+};
+use serde::{Deserialize, Serialize};
+use serde_json::json;
+use std::collections::BTreeSet;
+use std::hash::{Hash, Hasher};
+use std::sync::atomic::{AtomicU64, Ordering};
+use std::sync::{Arc, Mutex, OnceLock};
+use tokio::io::{AsyncReadExt, AsyncWriteExt};
+use vcore::resp::{decode_reply, encode_command, parse_zc, Argv, DecodeError, Reply};
+use vcore::time::VerifTime;
+use vcore::{CaseCtx, Level, Session};
+
+type State = ShardedActorState<VerifTime>;
+
+const KF_HASH: &str = "KF-C02-01";
+const SEARCH_BUDGET: usize = 400_000;
+
+// ---------------------------------------------------------------------------------------
+// routing replica (classification only): which keys do the two routers place differently?
+// ---------------------------------------------------------------------------------------
+
+#[derive(Clone, Copy, Debug, PartialEq, Eq)]
+enum HashMode {
+    Str,
+    Raw,
+}
+
+fn shard_of(mode: HashMode, key: &[u8], n: usize) -> usize {
+    let mut h = std::collections::hash_map::DefaultHasher::new();
+    match mode {
+        HashMode::Str => {
+            let s = String::from_utf8_lossy(key);
+            let s: &str = s.as_ref();
+            s.hash(&mut h)
+        }
+        HashMode::Raw => key.hash(&mut h),
+    }
+    (h.finish() as usize) % n
+}
+
+#[derive(Clone, Copy, Debug)]
+struct Routing {
+    generic: HashMode,
+    fast: HashMode,
+    calibrated: bool,
+}
+
+impl Routing {
+    fn split(&self, key: &[u8], n: usize) -> bool {
+        shard_of(self.generic, key, n) != shard_of(self.fast, key, n)
+    }
+}
+
+static ROUTING: OnceLock<Routing> = OnceLock::new();
+static KEY_NAMES: OnceLock<Vec<Vec<u8>>> = OnceLock::new();
+
+fn routing() -> Routing {
+    *ROUTING.get().expect("calibrated in main")
+}
+
+fn a(parts: &[&[u8]]) -> Argv {
+    parts.iter().map(|p| p.to_vec()).collect()
+}
+
+fn perf(n: usize, pool: (usize, usize)) -> PerformanceConfig {
+    PerformanceConfig {
+        num_shards: n,
+        response_pool: ResponsePoolConfig {
+            capacity: pool.0.max(1),
+            prewarm: pool.1.min(pool.0.max(1)),
+        },
+        ..PerformanceConfig::default()
+    }
+}
+
+fn mk_state(n: usize, pool: (usize, usize), time: &VerifTime) -> State {
+    ShardedActorState::with_perf_config_and_time_source(&perf(n, pool), ShardConfig::with_shards(n), time.clone())
+}
+
+async fn exec_generic<T: redis_sim::io::TimeSource>(st: &ShardedActorState<T>, argv: &Argv) -> Reply {
+    match parse_zc(argv) {
+        Ok(cmd) => Reply::from_resp(&st.execute(&cmd).await),
+        Err(e) => Reply::Error(format!("(parse) {}", e).into_bytes()),
+    }
+}
+
+/// Same calibration as C03: RANDOMKEY looks at shard 0 only, which tells whether a key written
+/// through a given router landed on shard 0. Falls back to the replica read from the source.
+fn calibrate() -> Routing {
+    let names: Vec<Vec<u8>> = (0..16).map(|i| format!("k{}", i).into_bytes()).collect();
+    let obs: Vec<(usize, Vec<u8>, bool, bool)> = vcore::block_on(async {
+        let mut out = Vec::new();
+        for n in [2usize, 4] {
+            let time = VerifTime::new(0);
+            let st = mk_state(n, (256, 64), &time);
+            for k in &names {
+                exec_generic(&st, &a(&[b"FLUSHALL"])).await;
+                exec_generic(&st, &a(&[b"SET", k, b"1"])).await;
+                let g = exec_generic(&st, &a(&[b"RANDOMKEY"])).await != Reply::Nil;
+                exec_generic(&st, &a(&[b"FLUSHALL"])).await;
+                st.fast_set(Bytes::copy_from_slice(k), Bytes::from_static(b"1")).await;
+                let f = exec_generic(&st, &a(&[b"RANDOMKEY"])).await != Reply::Nil;
+                out.push((n, k.clone(), g, f));
+            }
+        }
+        out
+    });
+    use HashMode::*;
+    for (g, f) in [(Str, Raw), (Str, Str), (Raw, Raw), (Raw, Str)] {
+        if obs
+            .iter()
+            .all(|(n, k, og, of)| (shard_of(g, k, *n) == 0) == *og && (shard_of(f, k, *n) == 0) == *of)
+        {
+            return Routing {
+                generic: g,
+                fast: f,
+                calibrated: true,
+            };
+        }
+    }
+    Routing {
+        generic: Str,
+        fast: Raw,
+        calibrated: false,
+    }
+}
+
+/// Key names: three on which both routers agree for 2, 4 and 16 shards (so entry paths can be
+/// mixed on them on every shard count even while the routing finding is open) + three ordinary.
+fn build_key_names(r: &Routing) -> Vec<Vec<u8>> {
+    let mut out: Vec<Vec<u8>> = Vec::new();
+    let mut i = 0u32;
+    while out.len() < 3 && i < 100_000 {
+        let k = format!("lk{}", i).into_bytes();
+        if !r.split(&k, 16) && !r.split(&k, 4) && !r.split(&k, 2) {
+            out.push(k);
+        }
+        i += 1;
+    }
+    out.push(b"k0".to_vec());
+    out.push(b"k1".to_vec());
+    out.push(b"key two".to_vec());
+    out
+}
+
+fn key_names() -> &'static Vec<Vec<u8>> {
+    KEY_NAMES.get().expect("built in main")
+}
+
+// ---------------------------------------------------------------------------------------
+// cases
+// ---------------------------------------------------------------------------------------
+
+#[derive(Clone, Copy, Debug, PartialEq, Eq, Hash, Serialize, Deserialize)]
+enum Path {
+    Generic,
+    Fast,
+    Pooled,
+    Batch,
+}
+
+#[derive(Clone, Copy, Debug, PartialEq, Eq, Hash, Serialize, Deserialize)]
+enum Kind {
+    Get(Path),
+    Set(Path),
+    Incr,
+    Append,
+    GetSet,
+    SetNx,
+    Del,
+    Cas,
+    Rmw,
+    /// fast_batch_get_pipeline over all keys of the case
+    BatchGet,
+    /// fast_batch_set_pipeline over all keys of the case
+    BatchSet,
+    MGet,
+    MSet,
+}
+
+#[derive(Clone, Debug, Serialize, Deserialize)]
+struct OpSpec {
+    kind: Kind,
+    /// key selector, mapped monotonically onto the case's keys
+    key: u8,
+    /// written value is a unique integer (so INCR has something to do) instead of a unique string
+    numeric: bool,
+    /// CAS: selects the expected value among the values the case writes to that key
+    pick: u16,
+    /// number of `yield_now` before the step (the schedule)
+    yields: u8,
+}
+
+#[derive(Clone, Debug, Serialize, Deserialize)]
+struct Case {
+    shard_counts: Vec<usize>,
+    /// explicit key names (1–3)
+    keys: Vec<Vec<u8>>,
+    /// response pool (capacity, prewarm)
+    pool: (usize, usize),
+    clients: Vec<Vec<OpSpec>>,
+}
+
+/// fully resolved operation
+#[derive(Clone, Debug)]
+enum ROp {
+    Get { k: usize, path: Path },
+    Set { k: usize, v: Vec<u8>, path: Path },
+    Incr { k: usize },
+    Append { k: usize, s: Vec<u8> },
+    GetSet { k: usize, v: Vec<u8> },
+    SetNx { k: usize, v: Vec<u8> },
+    Del { k: usize },
+    Cas { k: usize, expect: Vec<u8>, new: Vec<u8> },
+    Rmw { k: usize, s: Vec<u8> },
+    BatchGet { ks: Vec<usize> },
+    BatchSet { kvs: Vec<(usize, Vec<u8>)> },
+    MGet { ks: Vec<usize> },
+    MSet { kvs: Vec<(usize, Vec<u8>)> },
+}
+
+fn key_index(sel: u8, nkeys: usize) -> usize {
+    (sel as usize * nkeys) >> 8
+}
+
+fn unique_value(c: usize, i: usize, numeric: bool) -> Vec<u8> {
+    if numeric {
+        (((c + 1) * 100 + i) * 1000).to_string().into_bytes()
+    } else {
+        format!("v{}_{}", c, i).into_bytes()
+    }
+}
+
+fn multi_value(c: usize, i: usize, k: usize) -> Vec<u8> {
+    format!("m{}_{}k{}", c, i, k).into_bytes()
+}
+
+/// every value some set-like op of the case writes to key k (CAS picks its expectation here)
+fn written_values(case: &Case) -> Vec<Vec<Vec<u8>>> {
+    let nk = case.keys.len();
+    let mut out = vec![Vec::new(); nk];
+    for (c, prog) in case.clients.iter().enumerate() {
+        for (i, op) in prog.iter().enumerate() {
+            let k = key_index(op.key, nk);
+            match op.kind {
+                Kind::Set(_) | Kind::GetSet | Kind::SetNx => out[k].push(unique_value(c, i, op.numeric)),
+                Kind::Cas => out[k].push(format!("x{}_{}", c, i).into_bytes()),
+                Kind::BatchSet | Kind::MSet => {
+                    for kk in 0..nk {
+                        out[kk].push(multi_value(c, i, kk));
+                    }
+                }
+                _ => {}
+            }
+        }
+    }
+    out
+}
+
+const CAS_SCRIPT: &[u8] = b"local v = redis.call('GET', KEYS[1]); if v == ARGV[1] then redis.call('SET', KEYS[1], ARGV[2]); return 1 else return 0 end";
+const RMW_SCRIPT: &[u8] = b"local v = redis.call('GET', KEYS[1]); if not v then v = '' end; redis.call('SET', KEYS[1], v .. ARGV[1]); return v";
+
+/// Resolve a client's program. `coerce(k)` = the fast-family router may not be used for key k
+/// (only while the routing finding is open); returns the number of coerced ops.
+fn resolve(case: &Case, c: usize, coerce: &dyn Fn(usize) -> bool, coerced: &mut u64) -> Vec<(u8, ROp)> {
+    let nk = case.keys.len();
+    let written = written_values(case);
+    let all: Vec<usize> = (0..nk).collect();
+    let any_coerce = all.iter().any(|&k| coerce(k));
+    let mut out = Vec::new();
+    for (i, op) in case.clients[c].iter().enumerate() {
+        let k = key_index(op.key, nk);
+        let fix = |p: Path, coerced: &mut u64| {
+            if p != Path::Generic && coerce(k) {
+                *coerced += 1;
+                Path::Generic
+            } else {
+                p
+            }
+        };
+        let r = match op.kind {
+            Kind::Get(p) => ROp::Get { k, path: fix(p, coerced) },
+            Kind::Set(p) => ROp::Set { k, v: unique_value(c, i, op.numeric), path: fix(p, coerced) },
+            Kind::Incr => ROp::Incr { k },
+            Kind::Append => ROp::Append { k, s: format!("+a{}_{}", c, i).into_bytes() },
+            Kind::GetSet => ROp::GetSet { k, v: unique_value(c, i, op.numeric) },
+            Kind::SetNx => ROp::SetNx { k, v: unique_value(c, i, op.numeric) },
+            Kind::Del => ROp::Del { k },
+            Kind::Cas => {
+                let w = &written[k];
+                let expect = if w.is_empty() {
+                    b"none".to_vec()
+                } else {
+                    w[(op.pick as usize * w.len()) >> 16].clone()
+                };
+                ROp::Cas { k, expect, new: format!("x{}_{}", c, i).into_bytes() }
+            }
+            Kind::Rmw => ROp::Rmw { k, s: format!("~r{}_{}", c, i).into_bytes() },
+            Kind::BatchGet if any_coerce => {
+                *coerced += 1;
+                ROp::MGet { ks: all.clone() }
+            }
+            Kind::BatchGet => ROp::BatchGet { ks: all.clone() },
+            Kind::MGet => ROp::MGet { ks: all.clone() },
+            Kind::BatchSet if any_coerce => {
+                *coerced += 1;
+                ROp::MSet { kvs: all.iter().map(|&kk| (kk, multi_value(c, i, kk))).collect() }
+            }
+            Kind::BatchSet => ROp::BatchSet { kvs: all.iter().map(|&kk| (kk, multi_value(c, i, kk))).collect() },
+            Kind::MSet => ROp::MSet { kvs: all.iter().map(|&kk| (kk, multi_value(c, i, kk))).collect() },
+        };
+        out.push((op.yields, r));
+    }
+    out
+}
+
+fn one(mut v: Vec<redis_sim::redis::RespValue>) -> Result<Reply, String> {
+    if v.len() == 1 {
+        Ok(Reply::from_resp(&v.remove(0)))
+    } else {
+        Err(format!("a one-element batch pipeline answered {} replies", v.len()))
+    }
+}
+
+/// Execute one resolved op; returns its per-key projections (key, model op, reply).
+async fn run_op(st: &State, keys: &[Vec<u8>], op: &ROp) -> Result<Vec<(usize, MOp, Reply)>, String> {
+    let kb = |k: usize| Bytes::copy_from_slice(&keys[k]);
+    Ok(match op {
+        ROp::Get { k, path } => {
+            let r = match path {
+                Path::Generic => exec_generic(st, &a(&[b"GET", &keys[*k]])).await,
+                Path::Fast => Reply::from_resp(&st.fast_get(kb(*k)).await),
+                Path::Pooled => Reply::from_resp(&st.pooled_fast_get(kb(*k)).await),
+                Path::Batch => one(st.fast_batch_get_pipeline(vec![kb(*k)]).await)?,
+            };
+            vec![(*k, MOp::Get, r)]
+        }
+        ROp::Set { k, v, path } => {
+            let vb = Bytes::copy_from_slice(v);
+            let r = match path {
+                Path::Generic => exec_generic(st, &a(&[b"SET", &keys[*k], v])).await,
+                Path::Fast => Reply::from_resp(&st.fast_set(kb(*k), vb).await),
+                Path::Pooled => Reply::from_resp(&st.pooled_fast_set(kb(*k), vb).await),
+                Path::Batch => one(st.fast_batch_set_pipeline(vec![(kb(*k), vb)]).await)?,
+            };
+            vec![(*k, MOp::Set(v.clone()), r)]
+        }
+        ROp::BatchGet { ks } => {
+            let rs = st.fast_batch_get_pipeline(ks.iter().map(|&k| kb(k)).collect()).await;
+            if rs.len() != ks.len() {
+                return Err(format!("fast_batch_get_pipeline of {} keys answered {} replies", ks.len(), rs.len()));
+            }
+            ks.iter().zip(rs.iter()).map(|(&k, r)| (k, MOp::Get, Reply::from_resp(r))).collect()
+        }
+        ROp::BatchSet { kvs } => {
+            let rs = st
+                .fast_batch_set_pipeline(kvs.iter().map(|(k, v)| (kb(*k), Bytes::copy_from_slice(v))).collect())
+                .await;
+            if rs.len() != kvs.len() {
+                return Err(format!("fast_batch_set_pipeline of {} pairs answered {} replies", kvs.len(), rs.len()));
+            }
+            kvs.iter().zip(rs.iter()).map(|((k, v), r)| (*k, MOp::Set(v.clone()), Reply::from_resp(r))).collect()
+        }
+        other => {
+            let argv = argv_of(keys, other, true);
+            let r = exec_generic(st, &argv).await;
+            project(other, r)?
+        }
+    })
+}
+
+/// argv of an op for the generic entry / the wire. `exact_case` = GET/SET spelled so that the
+/// connection's fast-path recogniser would accept them (Path != Generic), else mixed case.
+fn argv_of(keys: &[Vec<u8>], op: &ROp, _exact_case: bool) -> Argv {
+    match op {
+        ROp::Get { k, path } => a(&[if *path == Path::Generic { b"Get" } else { b"GET" }, &keys[*k]]),
+        ROp::Set { k, v, path } => a(&[if *path == Path::Generic { b"Set" } else { b"SET" }, &keys[*k], v]),
+        ROp::Incr { k } => a(&[b"INCR", &keys[*k]]),
+        ROp::Append { k, s } => a(&[b"APPEND", &keys[*k], s]),
+        ROp::GetSet { k, v } => a(&[b"GETSET", &keys[*k], v]),
+        ROp::SetNx { k, v } => a(&[b"SETNX", &keys[*k], v]),
+        ROp::Del { k } => a(&[b"DEL", &keys[*k]]),
+        ROp::Cas { k, expect, new } => a(&[b"EVAL", CAS_SCRIPT, b"1", &keys[*k], expect, new]),
+        ROp::Rmw { k, s } => a(&[b"EVAL", RMW_SCRIPT, b"1", &keys[*k], s]),
+        ROp::BatchGet { ks } | ROp::MGet { ks } => {
+            let mut v = a(&[b"MGET"]);
+            v.extend(ks.iter().map(|&k| keys[k].clone()));
+            v
+        }
+        ROp::BatchSet { kvs } | ROp::MSet { kvs } => {
+            let mut v = a(&[b"MSET"]);
+            for (k, val) in kvs {
+                v.push(keys[*k].clone());
+                v.push(val.clone());
+            }
+            v
+        }
+    }
+}
+
+/// per-key projections of a single-command op given its reply
+fn project(op: &ROp, r: Reply) -> Result<Vec<(usize, MOp, Reply)>, String> {
+    Ok(match op {
+        ROp::Get { k, .. } => vec![(*k, MOp::Get, r)],
+        ROp::Set { k, v, .. } => vec![(*k, MOp::Set(v.clone()), r)],
+        ROp::Incr { k } => vec![(*k, MOp::Incr, r)],
+        ROp::Append { k, s } => vec![(*k, MOp::Append(s.clone()), r)],
+        ROp::GetSet { k, v } => vec![(*k, MOp::GetSet(v.clone()), r)],
+        ROp::SetNx { k, v } => vec![(*k, MOp::SetNx(v.clone()), r)],
+        ROp::Del { k } => vec![(*k, MOp::Del, r)],
+        ROp::Cas { k, expect, new } => vec![(*k, MOp::Cas { expect: expect.clone(), new: new.clone() }, r)],
+        ROp::Rmw { k, s } => vec![(*k, MOp::Rmw(s.clone()), r)],
+        ROp::BatchGet { ks } | ROp::MGet { ks } => match r {
+            Reply::Array(rs) if rs.len() == ks.len() => {
+                ks.iter().zip(rs.into_iter()).map(|(&k, r)| (k, MOp::Get, r)).collect()
+            }
+            other => return Err(format!("MGET of {} keys answered {}", ks.len(), other.show())),
+        },
+        ROp::BatchSet { kvs } | ROp::MSet { kvs } => {
+            kvs.iter().map(|(k, v)| (*k, MOp::Set(v.clone()), r.clone())).collect()
+        }
+    })
+}
+
+// ---------------------------------------------------------------------------------------
+// running a case
+// ---------------------------------------------------------------------------------------
+
+struct Recorder {
+    clock: AtomicU64,
+    hist: Mutex<Vec<Entry>>,
+}
+
+impl Recorder {
+    fn new() -> Arc<Recorder> {
+        Arc::new(Recorder {
+            clock: AtomicU64::new(1),
+            hist: Mutex::new(Vec::new()),
+        })
+    }
+    fn stamp(&self) -> u64 {
+        self.clock.fetch_add(1, Ordering::SeqCst)
+    }
+    fn record(&self, client: usize, inv: u64, res: u64, out: Vec<(usize, MOp, Reply)>) {
+        let mut h = self.hist.lock().unwrap();
+        for (key, op, reply) in out {
+            h.push(Entry { client, key, op, reply, inv, res });
+        }
+    }
+}
+
+async fn api_client(c: usize, prog: Vec<(u8, ROp)>, st: State, keys: Arc<Vec<Vec<u8>>>, rec: Arc<Recorder>) -> Result<(), String> {
+    for (yields, op) in prog {
+        for _ in 0..yields {
+            tokio::task::yield_now().await;
+        }
+        let inv = rec.stamp();
+        let out = run_op(&st, &keys, &op).await?;
+        let res = rec.stamp();
+        rec.record(c, inv, res, out);
+    }
+    Ok(())
+}
+
+
+/// Wait for the client tasks. A reply that never arrives (lost wake-up, reply handed to another
+/// requester) must not hang the check: on a current-thread runtime with no timers and no I/O,
+/// nothing can change once every task is parked, so "no stamp was taken during `IDLE_ROUNDS`
+/// consecutive scheduler rounds" is a structural deadlock verdict, not a timer. On the
+/// multi-thread runtime the same loop sleeps 1 ms per round (wall clock only bounds the wait).
+const IDLE_ROUNDS: u32 = 4000;
+
+async fn drive(handles: Vec<tokio::task::JoinHandle<Result<(), String>>>, rec: &Recorder, multi_thread: bool) -> Result<(), String> {
+    let mut idle = 0u32;
+    let mut last = rec.clock.load(Ordering::SeqCst);
+    let limit = if multi_thread { 120_000 } else { IDLE_ROUNDS };
+    while !handles.iter().all(|h| h.is_finished()) {
+        if multi_thread {
+            tokio::time::sleep(std::time::Duration::from_millis(1)).await;
+        } else {
+            tokio::task::yield_now().await;
+        }
+        let now = rec.clock.load(Ordering::SeqCst);
+        if now == last {
+            idle += 1;
+        } else {
+            idle = 0;
+            last = now;
+        }
+        if idle > limit {
+            let stuck: Vec<usize> = handles.iter().enumerate().filter(|(_, h)| !h.is_finished()).map(|(c, _)| c).collect();
+            for h in &handles {
+                h.abort();
+            }
+            let done = rec.hist.lock().unwrap().clone();
+            return Err(format!(
+                "clients {:?} never received a reply: no client made progress during {} scheduler rounds although nothing else can happen (lost wake-up, or the reply was handed to another requester)\n    history so far:\n{}",
+                stuck, limit, show_history(&done)
+            ));
+        }
+    }
+    for (c, h) in handles.into_iter().enumerate() {
+        match h.await {
+            Ok(Ok(())) => {}
+            Ok(Err(e)) => return Err(format!("client {}: {}", c, e)),
+            Err(e) => return Err(format!("client {} task failed: {}", c, e)),
+        }
+    }
+    Ok(())
+}
+
+async fn api_history(case: &Case, n: usize, progs: Vec<Vec<(u8, ROp)>>, multi_thread: bool) -> Result<Vec<Entry>, String> {
+    let time = VerifTime::new(0);
+    let st = mk_state(n, case.pool, &time);
+    let keys = Arc::new(case.keys.clone());
+    let rec = Recorder::new();
+    let mut handles = Vec::new();
+    for (c, prog) in progs.into_iter().enumerate() {
+        handles.push(tokio::spawn(api_client(c, prog, st.clone(), keys.clone(), rec.clone())));
+    }
+    drive(handles, &rec, multi_thread).await?;
+    // a final read of every key after everything returned (pins the final state)
+    for k in 0..case.keys.len() {
+        let inv = rec.stamp();
+        let r = exec_generic(&st, &a(&[b"GET", &keys[k]])).await;
+        let res = rec.stamp();
+        rec.record(usize::MAX, inv, res, vec![(k, MOp::Get, r)]);
+    }
+    let h = rec.hist.lock().unwrap().clone();
+    Ok(h)
+}
+
+/// one client of the connection tier: writes one command, reads exactly one reply
+async fn conn_client(
+    c: usize,
+    prog: Vec<(u8, ROp)>,
+    mut io: tokio::io::DuplexStream,
+    keys: Arc<Vec<Vec<u8>>>,
+    rec: Arc<Recorder>,
+) -> Result<(), String> {
+    let mut buf: Vec<u8> = Vec::new();
+    let mut tmp = [0u8; 4096];
+    for (yields, op) in prog {
+        for _ in 0..yields {
+            tokio::task::yield_now().await;
+        }
+        let argv = argv_of(&keys, &op, true);
+        let inv = rec.stamp();
+        io.write_all(&encode_command(&argv)).await.map_err(|e| format!("write: {}", e))?;
+        let reply = loop {
+            match decode_reply(&buf) {
+                Ok((r, used)) => {
+                    buf.drain(..used);
+                    break r;
+                }
+                Err(DecodeError::Incomplete) => {
+                    let got = io.read(&mut tmp).await.map_err(|e| format!("read: {}", e))?;
+                    if got == 0 {
+                        return Err(format!("connection closed while waiting for the reply to {}", vcore::resp::show_argv(&argv)));
+                    }
+                    buf.extend_from_slice(&tmp[..got]);
+                }
+                Err(DecodeError::Malformed(m)) => return Err(format!("malformed reply: {}", m)),
+            }
+        };
+        let res = rec.stamp();
+        if !buf.is_empty() {
+            return Err(format!("{} surplus reply bytes after the reply to {}", buf.len(), vcore::resp::show_argv(&argv)));
+        }
+        rec.record(c, inv, res, project(&op, reply)?);
+    }
+    Ok(())
+}
+
+async fn conn_history(case: &Case, n: usize, progs: Vec<Vec<(u8, ROp)>>) -> Result<Vec<Entry>, String> {
+    let st = ShardedActorState::with_perf_config(&perf(n, case.pool));
+    let keys = Arc::new(case.keys.clone());
+    let rec = Recorder::new();
+    let mut clients = Vec::new();
+    let mut servers = Vec::new();
+    for (c, prog) in progs.into_iter().enumerate() {
+        let (client_end, server_end) = tokio::io::duplex(1 << 16);
+        let cfg = ConnectionConfig::default();
+        let state = st.clone();
+        servers.push(tokio::spawn(async move { verif_hooks::run_connection(server_end, state, cfg).await }));
+        clients.push(tokio::spawn(conn_client(c, prog, client_end, keys.clone(), rec.clone())));
+    }
+    drive(clients, &rec, false).await?;
+    for (c, h) in servers.into_iter().enumerate() {
+        if let Err(e) = h.await {
+            return Err(format!("connection handler {} failed: {}", c, e));
+        }
+    }
+    for k in 0..case.keys.len() {
+        let inv = rec.stamp();
+        let r = exec_generic(&st, &a(&[b"GET", &keys[k]])).await;
+        let res = rec.stamp();
+        rec.record(usize::MAX, inv, res, vec![(k, MOp::Get, r)]);
+    }
+    let h = rec.hist.lock().unwrap().clone();
+    Ok(h)
+}
+
+#[derive(Clone, Copy, PartialEq, Eq)]
+enum Mode {
+    /// current-thread runtime, harness-owned schedule
+    Sched,
+    /// concurrent connection handlers, current-thread runtime
+    Conn,
+    /// multi-thread runtime
+    Stress,
+}
+
+/// ≥ 2 clients overlap in time on one key with ≥ 1 write and ≥ 1 read among the overlapping ops
+fn has_rw_overlap(h: &[Entry]) -> bool {
+    for x in h {
+        if !x.op.is_read() || x.client == usize::MAX {
+            continue;
+        }
+        for y in h {
+            if y.key == x.key && y.client != x.client && y.client != usize::MAX && y.op.is_write() && x.inv < y.res && y.inv < x.res {
+                return true;
+            }
+        }
+    }
+    false
+}
+
+fn judge(h: &[Entry], nkeys: usize, ctx: &mut CaseCtx<'_>, what: &str) -> Result<(), (String, Vec<Entry>)> {
+    for k in 0..nkeys {
+        let hk: Vec<Entry> = h.iter().filter(|e| e.key == k).cloned().collect();
+        match check_key(&hk, &None, SEARCH_BUDGET) {
+            Verdict::Linearizable => {}
+            Verdict::Budget => ctx.label("search_budget_exhausted"),
+            Verdict::NotLinearizable(why) => {
+                return Err((
+                    format!(
+                        "{}: the history of key #{} is not linearizable\n    {}    history of the key (stamps from one logical clock):\n{}",
+                        what, k, why, show_history(&hk)
+                    ),
+                    hk,
+                ))
+            }
+        }
+    }
+    Ok(())
+}
+
+fn check_case(case: &Case, mode: Mode, session: &Session, ctx: &mut CaseCtx<'_>) -> Result<(), String> {
+    if case.keys.is_empty() || case.clients.is_empty() {
+        return Ok(());
+    }
+    let r = routing();
+    let kf_open = ctx.finding_open(KF_HASH);
+    let mut fp: Vec<Entry> = Vec::new();
+    let mut nontrivial = false;
+    for &n in &case.shard_counts {
+        if n == 0 || n > 256 {
+            continue;
+        }
+        // KF-C02-01 (= KF-C03-01): while open, a key the two routers place differently at this
+        // shard count is only reached through the generic router (excluded by construction).
+        let split: Vec<bool> = case.keys.iter().map(|k| kf_open && r.split(k, n)).collect();
+        let coerce = |k: usize| split[k];
+        let mut coerced = 0u64;
+        let progs: Vec<Vec<(u8, ROp)>> = (0..case.clients.len()).map(|c| resolve(case, c, &coerce, &mut coerced)).collect();
+        for _ in 0..coerced {
+            ctx.tolerate(KF_HASH);
+        }
+        if coerced > 0 {
+            ctx.label("ops_coerced_to_generic");
+        }
+        let mixes_paths = progs.iter().flatten().any(|(_, op)| {
+            matches!(op, ROp::Get { path, .. } | ROp::Set { path, .. } if *path != Path::Generic)
+                || matches!(op, ROp::BatchGet { .. } | ROp::BatchSet { .. })
+        });
+        let run = |progs: Vec<Vec<(u8, ROp)>>| -> Result<Vec<Entry>, String> {
+            match mode {
+                Mode::Sched => vcore::block_on(api_history(case, n, progs, false)),
+                Mode::Conn => vcore::block_on(conn_history(case, n, progs)),
+                Mode::Stress => {
+                    let rt = tokio::runtime::Builder::new_multi_thread()
+                        .worker_threads(4)
+                        .enable_all()
+                        .build()
+                        .map_err(|e| e.to_string())?;
+                    let out = rt.block_on(api_history(case, n, progs, true));
+                    drop(rt);
+                    out
+                }
+            }
+        };
+        let h = run(progs.clone()).map_err(|e| format!("{} shard(s): {}", n, e))?;
+        // the schedule is meant to be a function of the case: sample-check that
+        if mode == Mode::Sched && (h.len() + n) % 8 == 0 {
+            let h2 = run(progs).map_err(|e| format!("{} shard(s), second run: {}", n, e))?;
+            if h2 != h {
+                // measured cause: MGET/MSET fan-out iterates a std HashMap (RandomState) inside the
+                // code under test, so the order in which shards are messaged varies per process run
+                let fanout = case.clients.iter().flatten().any(|o| matches!(o.kind, Kind::MGet | Kind::MSet | Kind::BatchGet | Kind::BatchSet));
+                ctx.label(if fanout && n > 1 { "schedule_not_reproducible(fanout_op_present)" } else { "schedule_not_reproducible(other)" });
+            } else {
+                ctx.label("schedule_reproduced");
+            }
+        }
+        let what = format!(
+            "{} shard(s), {} clients, response pool {:?}{}",
+            n,
+            case.clients.len(),
+            case.pool,
+            match mode {
+                Mode::Sched => "",
+                Mode::Conn => ", through connection handlers",
+                Mode::Stress => ", multi-thread runtime",
+            }
+        );
+        if let Err((msg, hk)) = judge(&h, case.keys.len(), ctx, &what) {
+            if mode == Mode::Stress {
+                // the schedule is not reproducible: save the recorded history as the replay
+                session.violation(
+                    "checker_hand",
+                    &HistCase { name: format!("recorded by stress: {}", what), entries: hk, linearizable: true },
+                    &msg,
+                );
+                return Ok(());
+            }
+            return Err(msg);
+        }
+        ctx.add_evaluations(1);
+        ctx.label(&format!("n={}", n));
+        if mixes_paths {
+            ctx.label(if n > 1 { "fast_family_paths_used(n>1)" } else { "fast_family_paths_used(n=1)" });
+        }
+        if has_rw_overlap(&h) {
+            nontrivial = true;
+            ctx.label("rw_overlap");
+        }
+        fp.extend(h);
+    }
+    if nontrivial {
+        ctx.nontrivial(&fp);
+    }
+    Ok(())
+}
+
+// ---------------------------------------------------------------------------------------
+// generators
+// ---------------------------------------------------------------------------------------
+
+fn op_spec() -> BoxedStrategy<OpSpec> {
+    let path = || {
+        prop_oneof![
+            3 => Just(Path::Generic),
+            2 => Just(Path::Fast),
+            3 => Just(Path::Pooled),
+            2 => Just(Path::Batch),
+        ]
+    };
+    let kind = prop_oneof![
+        10 => path().prop_map(Kind::Get),
+        8 => path().prop_map(Kind::Set),
+        4 => Just(Kind::Incr),
+        3 => Just(Kind::Append),
+        3 => Just(Kind::GetSet),
+        2 => Just(Kind::SetNx),
+        3 => Just(Kind::Del),
+        3 => Just(Kind::Cas),
+        2 => Just(Kind::Rmw),
+        2 => Just(Kind::BatchGet),
+        2 => Just(Kind::BatchSet),
+        1 => Just(Kind::MGet),
+        1 => Just(Kind::MSet),
+    ];
+    let yields = prop_oneof![5 => Just(0u8), 4 => 1u8..4, 1 => 4u8..12];
+    (kind, any::<u8>(), any::<bool>(), any::<u16>(), yields)
+        .prop_map(|(kind, key, numeric, pick, yields)| OpSpec { kind, key, numeric, pick, yields })
+        .boxed()
+}
+
+fn case_strategy(clients: std::ops::RangeInclusive<usize>, ops: std::ops::RangeInclusive<usize>, shard_counts: Vec<usize>) -> BoxedStrategy<Case> {
+    let names = key_names().clone();
+    let keys = proptest::collection::vec(any::<u16>(), 1..=3).prop_map(move |sel| {
+        let mut out: Vec<Vec<u8>> = Vec::new();
+        for s in sel {
+            let k = names[(s as usize * names.len()) >> 16].clone();
+            if !out.contains(&k) {
+                out.push(k);
+            }
+        }
+        out
+    });
+    let pool = prop_oneof![
+        3 => Just((256usize, 64usize)),
+        2 => Just((1usize, 1usize)),
+        2 => Just((2usize, 1usize)),
+        1 => Just((2usize, 0usize)),
+    ];
+    (
+        keys,
+        pool,
+        proptest::collection::vec(proptest::collection::vec(op_spec(), ops), clients),
+    )
+        .prop_map(move |(keys, pool, clients)| Case { shard_counts: shard_counts.clone(), keys, pool, clients })
+        .boxed()
+}
+
+// ---------------------------------------------------------------------------------------
+// the checker's own tests
+// ---------------------------------------------------------------------------------------
+
+#[derive(Clone, Debug, Serialize, Deserialize)]
+struct HistCase {
+    name: String,
+    entries: Vec<Entry>,
+    linearizable: bool,
+}
+
+fn e(client: usize, op: MOp, reply: Reply, inv: u64, res: u64) -> Entry {
+    Entry { client, key: 0, op, reply, inv, res }
+}
+
+fn hand_histories() -> Vec<HistCase> {
+    let b = |s: &str| Reply::Bulk(s.as_bytes().to_vec());
+    let v = |s: &str| s.as_bytes().to_vec();
+    let ok = Reply::ok;
+    let mut out = Vec::new();
+    let mut add = |name: &str, linearizable: bool, entries: Vec<Entry>| {
+        out.push(HistCase { name: name.to_string(), entries, linearizable })
+    };
+    add("empty", true, vec![]);
+    add("sequential set/get", true, vec![e(0, MOp::Set(v("a")), ok(), 1, 2), e(1, MOp::Get, b("a"), 3, 4)]);
+    add("read of nil after a completed set", false, vec![e(0, MOp::Set(v("a")), ok(), 1, 2), e(1, MOp::Get, Reply::Nil, 3, 4)]);
+    add("concurrent set/get may see either (nil)", true, vec![e(0, MOp::Set(v("a")), ok(), 1, 4), e(1, MOp::Get, Reply::Nil, 2, 3)]);
+    add("concurrent set/get may see either (a)", true, vec![e(0, MOp::Set(v("a")), ok(), 1, 4), e(1, MOp::Get, b("a"), 2, 3)]);
+    add("read of a value never written", false, vec![e(0, MOp::Set(v("a")), ok(), 1, 4), e(1, MOp::Get, b("zz"), 2, 3)]);
+    add(
+        "stale read: new value seen, then old value by a later read",
+        false,
+        vec![
+            e(0, MOp::Set(v("a")), ok(), 1, 2),
+            e(0, MOp::Set(v("b")), ok(), 3, 10),
+            e(1, MOp::Get, b("b"), 4, 5),
+            e(2, MOp::Get, b("a"), 6, 7),
+        ],
+    );
+    add(
+        "two reads overlapping a write in either order",
+        true,
+        vec![
+            e(0, MOp::Set(v("a")), ok(), 1, 2),
+            e(0, MOp::Set(v("b")), ok(), 3, 10),
+            e(1, MOp::Get, b("a"), 4, 5),
+            e(2, MOp::Get, b("b"), 6, 7),
+        ],
+    );
+    add(
+        "lost update: two concurrent INCRs both reply 1",
+        false,
+        vec![e(0, MOp::Incr, Reply::Int(1), 1, 4), e(1, MOp::Incr, Reply::Int(1), 2, 3)],
+    );
+    add(
+        "two concurrent INCRs reply 1 and 2",
+        true,
+        vec![e(0, MOp::Incr, Reply::Int(2), 1, 4), e(1, MOp::Incr, Reply::Int(1), 2, 3), e(2, MOp::Get, b("2"), 5, 6)],
+    );
+    add(
+        "both SETNX win",
+        false,
+        vec![e(0, MOp::SetNx(v("a")), Reply::Int(1), 1, 4), e(1, MOp::SetNx(v("b")), Reply::Int(1), 2, 3)],
+    );
+    add(
+        "GETSET chain",
+        true,
+        vec![
+            e(0, MOp::GetSet(v("a")), Reply::Nil, 1, 5),
+            e(1, MOp::GetSet(v("b")), b("a"), 2, 6),
+            e(2, MOp::Get, b("b"), 7, 8),
+        ],
+    );
+    add(
+        "GETSET returns a value that was already replaced before it started",
+        false,
+        vec![
+            e(0, MOp::Set(v("a")), ok(), 1, 2),
+            e(0, MOp::Set(v("b")), ok(), 3, 4),
+            e(1, MOp::GetSet(v("c")), b("a"), 5, 6),
+        ],
+    );
+    add(
+        "DEL and APPEND interleave",
+        true,
+        vec![
+            e(0, MOp::Append(v("xy")), Reply::Int(2), 1, 2),
+            e(1, MOp::Del, Reply::Int(1), 3, 8),
+            e(2, MOp::Append(v("z")), Reply::Int(1), 4, 7),
+            e(3, MOp::Get, b("z"), 9, 10),
+        ],
+    );
+    add(
+        "APPEND length that no order explains",
+        false,
+        vec![e(0, MOp::Append(v("xy")), Reply::Int(2), 1, 4), e(1, MOp::Append(v("z")), Reply::Int(1), 2, 3), e(2, MOp::Get, b("xy"), 5, 6)],
+    );
+    add(
+        "CAS succeeds twice on the same expectation",
+        false,
+        vec![
+            e(0, MOp::Set(v("a")), ok(), 1, 2),
+            e(1, MOp::Cas { expect: v("a"), new: v("b") }, Reply::Int(1), 3, 6),
+            e(2, MOp::Cas { expect: v("a"), new: v("c") }, Reply::Int(1), 4, 5),
+        ],
+    );
+    add(
+        "CAS: one wins, one loses",
+        true,
+        vec![
+            e(0, MOp::Set(v("a")), ok(), 1, 2),
+            e(1, MOp::Cas { expect: v("a"), new: v("b") }, Reply::Int(1), 3, 6),
+            e(2, MOp::Cas { expect: v("a"), new: v("c") }, Reply::Int(0), 4, 5),
+            e(3, MOp::Get, b("b"), 7, 8),
+        ],
+    );
+    add(
+        "RMW scripts are atomic: second sees the first's suffix",
+        true,
+        vec![e(0, MOp::Rmw(v("~1")), b(""), 1, 4), e(1, MOp::Rmw(v("~2")), b("~1"), 2, 5), e(2, MOp::Get, b("~1~2"), 6, 7)],
+    );
+    add(
+        "RMW scripts interleaved (both read the empty value)",
+        false,
+        vec![e(0, MOp::Rmw(v("~1")), b(""), 1, 4), e(1, MOp::Rmw(v("~2")), b(""), 2, 5)],
+    );
+    add(
+        "INCR on a non-integer errors and changes nothing",
+        true,
+        vec![
+            e(0, MOp::Set(v("abc")), ok(), 1, 2),
+            e(1, MOp::Incr, Reply::Error(lin::INCR_ERR.to_vec()), 3, 4),
+            e(2, MOp::Get, b("abc"), 5, 6),
+        ],
+    );
+    add(
+        "reply handed to the wrong requester (two pooled GETs swap replies of different keys' values)",
+        false,
+        vec![e(0, MOp::Set(v("a")), ok(), 1, 2), e(1, MOp::Get, b("other-key-value"), 3, 4)],
+    );
+    add("error reply where the model has a value", false, vec![e(0, MOp::Get, Reply::Error(b"ERR shard unavailable".to_vec()), 1, 2)]);
+    out
+}
+
+#[derive(Clone, Debug, Serialize, Deserialize)]
+struct SeqCase {
+    ops: Vec<(u8, u8)>, // (op kind selector, value selector)
+    widen: Vec<(u8, u8)>,
+    /// index selector of the GET to corrupt
+    corrupt: u16,
+}
+
+fn seq_op(kind: u8, val: u8, i: usize) -> MOp {
+    let uniq = |p: &str| format!("{}{}", p, i).into_bytes();
+    match kind % 10 {
+        0 | 1 => MOp::Get,
+        2 => MOp::Set(if val % 2 == 0 { (1000 * (i + 1)).to_string().into_bytes() } else { uniq("s") }),
+        3 => MOp::SetNx(uniq("n")),
+        4 => MOp::GetSet(uniq("g")),
+        5 => MOp::Del,
+        6 => MOp::Incr,
+        7 => MOp::Append(uniq("+a")),
+        8 => MOp::Cas { expect: format!("s{}", (val as usize) % (i + 1)).into_bytes(), new: uniq("x") },
+        _ => MOp::Rmw(uniq("~r")),
+    }
+}
+
+fn check_seq(case: &SeqCase, ctx: &mut CaseCtx<'_>) -> Result<(), String> {
+    // sequential execution against the specification
+    let mut state: St = None;
+    let mut hist: Vec<Entry> = Vec::new();
+    for (i, (kind, val)) in case.ops.iter().enumerate() {
+        let op = seq_op(*kind, *val, i);
+        let (reply, next) = spec(&state, &op);
+        state = next;
+        let t = 100 * (i as u64 + 1);
+        hist.push(Entry { client: i % 4, key: 0, op, reply, inv: t, res: t + 1 });
+    }
+    // widening intervals keeps the sequential order admissible
+    let mut wide = hist.clone();
+    for (i, en) in wide.iter_mut().enumerate() {
+        let (l, r) = case.widen.get(i).copied().unwrap_or((0, 0));
+        en.inv = en.inv.saturating_sub(l as u64 * 7);
+        en.res += r as u64 * 7;
+    }
+    match check_key(&wide, &None, SEARCH_BUDGET) {
+        Verdict::Linearizable => {}
+        Verdict::Budget => ctx.label("search_budget_exhausted"),
+        Verdict::NotLinearizable(why) => {
+            return Err(format!("CHECKER DEFECT: a sequential history with widened intervals was rejected\n    {}\n{}", why, show_history(&wide)))
+        }
+    }
+    // a read of a value that was never written must be rejected (exact sequential stamps)
+    let gets: Vec<usize> = hist.iter().enumerate().filter(|(_, en)| en.op == MOp::Get).map(|(i, _)| i).collect();
+    if !gets.is_empty() {
+        let g = gets[(case.corrupt as usize * gets.len()) >> 16];
+        let mut bad = wide.clone();
+        bad[g].reply = Reply::Bulk(b"never-written".to_vec());
+        match check_key(&bad, &None, SEARCH_BUDGET) {
+            Verdict::NotLinearizable(_) => {}
+            Verdict::Budget => ctx.label("search_budget_exhausted"),
+            Verdict::Linearizable => {
+                return Err(format!("CHECKER DEFECT: a history with a read of a never-written value was accepted\n{}", show_history(&bad)))
+            }
+        }
+        if case.ops.len() >= 4 {
+            ctx.nontrivial(&(case.ops.clone(), case.widen.clone()));
+        }
+    }
+    Ok(())
+}
+
+fn main() {
+    let args = vcore::parse_args();
+    let s = Session::new(
+        "C02",
+        Level::Exploration,
+        "2-5 client programs (5-25 ops: GET/SET via generic|fast|pooled|batch entry, INCR, APPEND, GETSET, SETNX, DEL, EVAL compare-and-set, EVAL read-modify-write, \
+         batch pipelines and MGET/MSET as per-key projections) over 1-3 shared keys with unique written values; shard counts 1,2,4,16; response pool sizes 1..256; \
+         schedule = generated yield_now counts before every client step on a current-thread runtime (conn_clients: through concurrent connection handlers; stress: multi-thread runtime). \
+         non-trivial = in the recorded history at least two different clients overlap in time on one key with one of the overlapping ops a read and another a write; \
+         distinct by the full recorded histories (ops, replies, stamps) of the case",
+        &args,
+    );
+    let r = calibrate();
+    let _ = ROUTING.set(r);
+    let _ = KEY_NAMES.set(build_key_names(&r));
+    s.note(
+        "routing_replica",
+        json!({"generic": format!("{:?}", r.generic), "fast": format!("{:?}", r.fast), "calibrated_against_randomkey_shard0": r.calibrated,
+               "keys": key_names().iter().map(|k| vcore::show(k)).collect::<Vec<_>>()}),
+    );
+    s.assume("sequential model of one string key (GET, SET, SETNX, GETSET, DEL, INCR on canonical integers, APPEND, two fixed Lua scripts); written values are unique per history");
+    s.assume("the tokio current-thread scheduler is deterministic for tasks that only use channels and yield_now (sample-checked: label schedule_reproduced / schedule_not_reproducible)");
+    s.assume("TTL-bearing commands are not part of the op set (shard clocks are not part of this property's model); the harness clock stays at 0");
+    s.assume("multi-key ops (MGET/MSET/batch pipelines) are judged through their per-key projections only, not as atomic multi-key operations");
+    s.assume("key classification for the known-finding exclusion replicates hash_key/hash_key_bytes (std DefaultHasher over str / [u8])");
+
+    // ---- the routing finding, seen from this property: even a sequential history breaks
+    s.probe(
+        KF_HASH,
+        json!({"shards": 16, "history": ["client 0: fast_set k0 v0_0", "client 0: GET k0 (generic)"]}),
+        || {
+            let case = Case {
+                shard_counts: vec![16],
+                keys: vec![b"k0".to_vec()],
+                pool: (256, 64),
+                clients: vec![vec![
+                    OpSpec { kind: Kind::Set(Path::Fast), key: 0, numeric: false, pick: 0, yields: 0 },
+                    OpSpec { kind: Kind::Get(Path::Generic), key: 0, numeric: false, pick: 0, yields: 0 },
+                ]],
+            };
+            s.strict_eval(|ctx| check_case(&case, Mode::Sched, &s, ctx)).err()
+        },
+    );
+
+    // ---- the checker itself
+    s.describe_check("checker_hand", "hand-written histories with known verdicts; replay target for histories recorded by the stress tier");
+    s.run_enumerated("checker_hand", hand_histories().into_iter(), |c: &HistCase, ctx| {
+        let keys: BTreeSet<usize> = c.entries.iter().map(|e| e.key).collect();
+        ctx.nontrivial(&c.name);
+        for k in keys {
+            let hk: Vec<Entry> = c.entries.iter().filter(|e| e.key == k).cloned().collect();
+            let v = check_key(&hk, &None, SEARCH_BUDGET);
+            match (&v, c.linearizable) {
+                (Verdict::Linearizable, true) | (Verdict::NotLinearizable(_), false) => {}
+                (Verdict::NotLinearizable(why), true) => {
+                    return Err(format!("history '{}' is not linearizable\n    {}\n{}", c.name, why, show_history(&hk)))
+                }
+                (Verdict::Linearizable, false) => {
+                    return Err(format!("CHECKER DEFECT: history '{}' must be rejected but was accepted\n{}", c.name, show_history(&hk)))
+                }
+                (Verdict::Budget, _) => return Err(format!("history '{}': search budget exhausted", c.name)),
+            }
+        }
+        Ok(())
+    });
+    s.describe_check("checker_seq", "every sequential history (intervals widened) accepted; one read of a never-written value rejected");
+    s.run_cases(
+        "checker_seq",
+        s.scale(10_000, 200_000),
+        || {
+            (
+                proptest::collection::vec((any::<u8>(), any::<u8>()), 1..40),
+                proptest::collection::vec((0u8..40, 0u8..40), 0..40),
+                any::<u16>(),
+            )
+                .prop_map(|(ops, widen, corrupt)| SeqCase { ops, widen, corrupt })
+        },
+        check_seq,
+    );
+
+    // ---- the property
+    let shard_counts = vec![1usize, 2, 4, 16];
+    s.describe_check("sched", "client tasks + shard actors on a current-thread runtime, schedule = generated yield counts; one history per shard count");
+    s.run_cases(
+        "sched",
+        s.scale(8_000, 100_000),
+        || case_strategy(2..=5, 1..=25, shard_counts.clone()),
+        |c, ctx| check_case(c, Mode::Sched, &s, ctx),
+    );
+    s.describe_check("conn_clients", "the same programs through concurrent connection handlers (hook) over in-memory duplex streams, sharing one ShardedActorState");
+    s.run_cases(
+        "conn_clients",
+        s.scale(2_000, 30_000),
+        || case_strategy(2..=5, 1..=20, vec![1usize, 4, 16]),
+        |c, ctx| check_case(c, Mode::Conn, &s, ctx),
+    );
+    if s.thorough() || s.is_replay() {
+        s.describe_check("stress", "8-16 clients on a 4-worker multi-thread runtime; a violating history is saved for replay through checker_hand");
+        s.run_cases(
+            "stress",
+            s.scale(0, 400),
+            || case_strategy(8..=16, 10..=25, vec![1usize, 2, 4, 16]),
+            |c, ctx| check_case(c, Mode::Stress, &s, ctx),
+        );
+    }
+    s.finish();
+}
